@@ -11,7 +11,7 @@ RULE = ("images emitted by an independent writer (diskcommon.write_third_party, 
         "images, blocks allocated ascending / descending / in random order and fragmented, chains of 1..157 blocks, last-block sector counts 1..8, last-sector byte counts "
         "0..255 (incl. a last sector holding 0 bytes), deleted and never-used entries interleaved over all 14 catalogue sectors, extra reserved blocks, fillers 00/E5/FF/41, "
         "table byte 0 and tail 00/FF; plus the bundled real-world image. The writer's images are first cross-checked by the extracted Spec decoder (fsck_read + dos_files). "
-        "Oracle: list -v and extract report exactly the live files of every side (kind, flag, true size) and extract writes exactly their bytes. "
+        "Oracle: list -v and extract report exactly the live files of every side (kind, flag, true size) and extract writes exactly their bytes, also where the sideN directories already hold longer or shorter files of the same names (two files in three). "
         "signature = (flavour, nsides, allocation orders, flags {frag, deleted, spread, lastbytes0, extra-reserved, filler, multi-block}); non-trivial = a multi-block or fragmented file, or deleted entries")
 ASSUMPTIONS = ["names are printable ASCII without '/', and deleted entries keep a first-block byte below 160 (other bytes are C18's business)"]
 KIND = {0: "BASIC", 1: "DATA", 2: "MODULE", 3: "TEXT"}
@@ -58,10 +58,18 @@ def run_case(case, ctx):
         rl = run_disk(ctx, is_fd, ["-t", "-v", arch], cd)
         ml = dmodel_outcome(ctx.model.call("disk_list", is_fd, True, raw))
         dis = compare_action(rl, ml, cd, None, "list")
+        mx = dmodel_outcome(ctx.model.call("disk_extract", is_fd, v, [], text_points(arch), raw))
+        # the sideN directories may already hold results of an earlier extraction (of this image or of another revision kept beside it), longer or shorter
+        # than the files of this image: extract writes exactly the bytes of the image
+        for n_, (p_, c_) in enumerate(mx["effects"]):
+            q = os.path.normpath(os.path.join(cd.cwd, p_))
+            if n_ % 3 != 2 and q.startswith(cd.root) and not os.path.lexists(q):
+                os.makedirs(os.path.dirname(q), exist_ok=True)
+                with open(q, "wb") as f_:
+                    f_.write(b"earlier revision " * (len(c_) // 10 + 50) if n_ % 3 == 0 else c_[:len(c_) // 2])
         before = cd.snapshot()
         rx = run_disk(ctx, is_fd, ["-x"] + (["-v"] if v else []) + [arch], cd)
         after = cd.snapshot()
-        mx = dmodel_outcome(ctx.model.call("disk_extract", is_fd, v, [], text_points(arch), raw))
         dis = dis or compare_action(rx, mx, cd, after, "extract")
         bad = None
         if all(t is not None for t in truth):
